@@ -175,10 +175,14 @@ def _pair(platform, a, b, ta, tb, ctx):
         apis.append(("AddressAg.subnet_of", lambda: ga.subnet_of(gb)))
         apis.append(("functions.subnet_of(AddressAg)", lambda: F.subnet_of(top=gb, bottom=ga)))
         apis.append(("member in member", lambda: ga in gb))
+    snap = [o.line for o in (oa, ob)]
     for name, call in apis:
         ctx.ev()
         try:
             got = call()
+            if [o.line for o in (oa, ob)] != snap:
+                ctx.viol(f"{name}:operand_modified", case, [o.line for o in (oa, ob)], snap)
+                return
         except TypeError as ex:
             if name == "member in member" and (a.is_nc or b.is_nc):
                 ctx.out("in_refused_for_nc")
